@@ -47,8 +47,8 @@ type SeqCase struct {
 const guardLen = 48
 
 type keptWallet struct {
-	step    int
-	w       keystorev3.WalletFile
+	step int
+	w    keystorev3.WalletFile
 	key  []byte // snapshot taken right after the call
 	id   string
 	meta string // canonical JSON of Metadata() right after the call
